@@ -1,6 +1,7 @@
 package main
 
 import (
+	"crypto/sha1"
 	"fmt"
 	"go/types"
 	"strings"
@@ -263,4 +264,152 @@ func shorten(s string, n int) string {
 		return s[:n] + "…"
 	}
 	return s
+}
+
+// ---------------------------------------------------------------------------
+// C12.R11 / C08.R8 - the PROXY-protocol header parser is the one place where
+// raw peer bytes are cut up with computed offsets, on a goroutine of its own
+// that nothing recovers. Every slice expression with a non-constant bound, and
+// every slice whose lower bound is a merge of constants, in package proxyproto
+// is decided here:
+//
+//   - a lower bound that is a phi of constants is fine when every incoming
+//     edge that carries K > 0 leaves a block where len(operand) >= K is known;
+//   - any other computed bound must be one of the audited expressions below
+//     (function, operand, bounds - as SSA terms), each confirmed by reading.
+//
+// A new computed bound is a violation until it is audited: this is an
+// "audited set" rule, the only one of its kind here, and it is confined to
+// this one package (DESIGN.md 12.0.4 says why).
+var proxyprotoAuditedBounds = map[string]string{
+	"proxyproto.readUntilCRLF#bound:8f08d2d4":       "buf[idx:idx+1]: the loop runs while idx < 107 and every caller passes the 232-byte header buffer",
+	"proxyproto.readUntilCRLF#bound:4fdfef01":       "buf[idx-1:idx+1]: idx starts at 13, 22 or 32 (the callers' constants) and only grows, upper bound as above",
+	"proxyproto.readUntilCRLF#bound:62b86f9b":       "buf[0:idx-1]: idx >= 13",
+	"proxyproto.parseV1Header#const($0,11)":         "buf[11:]: callers pass buf[0:30], buf[0:20] or readUntilCRLF's result, which is at least 12 bytes (idx >= 13)",
+	"proxyproto.split#bound:91b82fb2":               "buf[:m]: m is the index bytes.IndexByte found in buf (tested >= 0)",
+	"proxyproto.split#bound:bce429d6":               "buf[m+1:]: m < len(buf) as above, so m+1 <= len(buf)",
+	"(*proxyproto.Header).ParseTLVs#bound:d5f6e4d5": "RawTLVs[offset+1:offset+3]: the loop condition is offset+3 < len(RawTLVs)",
+	"(*proxyproto.Header).ParseTLVs#bound:534c3a54": "RawTLVs[begin:end]: end <= len(RawTLVs) is tested just above, begin = end - length <= end",
+}
+
+func init() {
+	register("C12", "R11", 8, "no crash from a hostile PROXY header: every computed slice bound in package proxyproto is either a merge of constants each guarded by a length check on its own edge, or one of the audited expressions (bounded by a preceding length test or by the index a search returned)", proxyprotoBounds)
+	register("C08", "R8", 8, "a malformed PROXY header fails only its own connection: computed slice bounds in the header parser cannot run past the bytes read (same rule as C12.R11)", proxyprotoBounds)
+}
+
+func proxyprotoBounds(r *R) {
+	for _, fn := range r.modFuncs() {
+		if !strings.HasPrefix(strings.TrimLeft(fname(fn), "(*"), "proxyproto.") {
+			continue
+		}
+		eachInstr(fn, func(ins ssa.Instruction) {
+			sl, ok := ins.(*ssa.Slice)
+			if !ok {
+				return
+			}
+			if _, isPtr := sl.X.Type().Underlying().(*types.Pointer); isPtr {
+				if (sl.Low == nil || isConstV(sl.Low)) && (sl.High == nil || isConstV(sl.High)) {
+					return // array with constant bounds: the compiler checks it
+				}
+			}
+			lowC, highC := sl.Low == nil || isConstV(sl.Low), sl.High == nil || isConstV(sl.High)
+			if lowC && highC {
+				// constant bounds on a slice: need the length
+				var need int64
+				if sl.Low != nil {
+					need, _ = constInt(sl.Low)
+				}
+				if sl.High != nil {
+					if h, _ := constInt(sl.High); h > need {
+						need = h
+					}
+				}
+				if need == 0 {
+					return
+				}
+				have := minLen(sl.X)
+				if g := guardLen(ins.Block(), describe(sl.X)); g > have {
+					have = g
+				}
+				if p, ok := sl.X.(*ssa.Parameter); ok && have < need {
+					have = paramMinLen(r, p)
+				}
+				key := fmt.Sprintf("%s#const(%s,%d)", fname(fn), shorten(describe(sl.X), 40), need)
+				if reason, ok := proxyprotoAuditedBounds[key]; ok && have < need {
+					r.ok(key, sl.Pos(), "audited: "+reason)
+					return
+				}
+				r.check(have >= need, key, sl.Pos(), fmt.Sprintf("operand is at least %d long", have), fmt.Sprintf("needs len >= %d, only %d is known: a shorter buffer panics in the header-reading goroutine", need, have))
+				return
+			}
+			x := describe(sl.X)
+			lo, hi := "", ""
+			if sl.Low != nil {
+				lo = describe(sl.Low)
+			}
+			if sl.High != nil {
+				hi = describe(sl.High)
+			}
+			sum := sha1.Sum([]byte(x + "|" + lo + "|" + hi))
+			key := fmt.Sprintf("%s#bound:%x", fname(fn), sum[:4])
+			shown := fmt.Sprintf("%s[%s:%s]", shorten(x, 40), shorten(lo, 50), shorten(hi, 50))
+			// phi of constants as the lower bound
+			if phi, ok := sl.Low.(*ssa.Phi); ok && highC {
+				allConst := true
+				var bad []string
+				for i, e := range phi.Edges {
+					k, isC := constInt(e)
+					if !isC {
+						allConst = false
+						break
+					}
+					if k > 0 && guardLen(phi.Block().Preds[i], x) < k && minLen(sl.X) < k {
+						bad = append(bad, fmt.Sprintf("offset %d arrives from a block where len(%s) >= %d is not known", k, shorten(x, 30), k))
+					}
+				}
+				if allConst {
+					r.check(len(bad) == 0, key, sl.Pos(), "every constant offset is set behind a length check", strings.Join(bad, "; ")+": a shorter block panics in the header-reading goroutine and ends the process")
+					return
+				}
+			}
+			if reason, ok := proxyprotoAuditedBounds[key]; ok {
+				r.ok(key, sl.Pos(), "audited: "+reason)
+				return
+			}
+			r.bad(key, sl.Pos(), "computed slice bound "+shown+" in the PROXY header parser is not among the audited ones: nothing shown here keeps it inside the operand, and a panic in the header-reading goroutine ends the process")
+		})
+	}
+}
+
+func isConstV(v ssa.Value) bool { _, ok := v.(*ssa.Const); return ok }
+
+// paramMinLen: the least length any static caller in the module passes for a slice parameter.
+func paramMinLen(r *R, p *ssa.Parameter) int64 {
+	fn := p.Parent()
+	idx := -1
+	for i, q := range fn.Params {
+		if q == p {
+			idx = i
+		}
+	}
+	best := int64(-1)
+	for _, g := range r.modFuncs() {
+		for _, c := range callsToFunc(g, fn) {
+			args := c.Common().Args
+			if idx >= len(args) {
+				continue
+			}
+			n := minLen(args[idx])
+			if q, ok := args[idx].(*ssa.Parameter); ok && n == 0 {
+				n = paramMinLen(r, q)
+			}
+			if best < 0 || n < best {
+				best = n
+			}
+		}
+	}
+	if best < 0 {
+		return 0
+	}
+	return best
 }
